@@ -2,6 +2,7 @@ package c01
 
 import (
 	"errors"
+	"os"
 	"fmt"
 	"math"
 	"strconv"
@@ -11,6 +12,7 @@ import (
 	"pgregory.net/rapid"
 
 	"verifharness/gen"
+	"verifharness/lq"
 	"verifharness/model"
 	"verifharness/pt"
 	"verifharness/sut"
@@ -338,13 +340,16 @@ func checkC01(cs *c01Case, o *pt.Obs) error {
 	o.Count("events", int64(len(evs)))
 	lo, hi := tsRange(evs)
 	return pt.WithWorker(sut.Options{}, func(c *sut.Client) error {
+		if pf := os.Getenv("VERIF_CPUPROF"); pf != "" {
+			_ = c.Call(&sut.Req{Op: "cpuprof_start", Name: pf}, nil)
+			defer func() { _ = c.Call(&sut.Req{Op: "cpuprof_stop"}, nil) }()
+		}
 		err := applyLayout(c, "c01idx", 0, evs, cs.Layout, func(flushed []*model.Event, stage string) error {
 			sr, err := c.Search(sut.Query{Index: "c01idx", Text: "*", Start: lo, End: hi, Size: len(evs) + 10, IncludeNulls: true})
 			if err != nil {
-				if err == sut.ErrWorkerDied {
-					return fmt.Errorf("%s: server process died during match-all: %s", stage, pt.CrashDetail(c))
+				if cerr := lq.Classify(c, stage+": match-all", err); cerr != nil {
+					return cerr
 				}
-				return fmt.Errorf("%s: search failed: %v", stage, err)
 			}
 			if sr.Err != "" || len(sr.Errors) > 0 {
 				return fmt.Errorf("%s: match-all answered with error: %q %v", stage, sr.Err, sr.Errors)
@@ -356,6 +361,9 @@ func checkC01(cs *c01Case, o *pt.Obs) error {
 		})
 		if errors.Is(err, sut.ErrWorkerDied) {
 			return fmt.Errorf("server process died (%v): %s", err, pt.CrashDetail(c))
+		}
+		if errors.Is(err, sut.ErrTimeout) {
+			return pt.Inconclusivef("worker command exceeded its time budget: %v", err)
 		}
 		return err
 	})
